@@ -54,9 +54,9 @@ func execute(j job) {
 	}
 	// a second contract that always reverts and one that returns 64 bytes, as call targets
 	st.CreateAccount(eu.Addr(2))
-	st.SetCode(eu.Addr(2), []byte{eu.PUSH0, eu.PUSH0, eu.REVERT})
+	st.SetCode(eu.Addr(2), []byte{eu.PUSH1, 0, eu.PUSH1, 0, eu.REVERT})
 	st.CreateAccount(eu.Addr(3))
-	st.SetCode(eu.Addr(3), []byte{eu.PUSH1, 64, eu.PUSH0, eu.RETURN})
+	st.SetCode(eu.Addr(3), []byte{eu.PUSH1, 64, eu.PUSH1, 0, eu.RETURN})
 	evm := eu.NewEVM(st, height, j.gas)
 	tr.Emit(map[string]interface{}{"event": "Begin", "run": runID, "kind": j.kind, "gas": eu.GasDigits(j.gas),
 		"codeLen": len(j.code), "dataLen": len(j.data), "create": j.create, "value": int(j.value), "depth": 0})
@@ -407,8 +407,164 @@ func generate(r *rand.Rand, i int) job {
 	return j
 }
 
+// ------------------------------------------------------------ TLC scripts
+
+type callDesc struct {
+	Op     string `json:"op"`
+	Gas    string `json:"gas"`
+	Value  int    `json:"value"`
+	Target string `json:"target"`
+}
+
+type memCase struct {
+	Op string `json:"op"`
+	A  string `json:"a"`
+	B  string `json:"b"`
+	C  string `json:"c"`
+}
+
+type script struct {
+	Calls [][]callDesc `json:"calls"`
+	Mem   []memCase    `json:"mem"`
+}
+
+// classValue: the operand classes of spec/EvmGasGen.tla
+func classValue(c string) *big.Int {
+	one := big.NewInt(1)
+	p := func(k uint) *big.Int { return new(big.Int).Lsh(one, k) }
+	switch c {
+	case "0":
+		return big.NewInt(0)
+	case "1":
+		return big.NewInt(1)
+	case "32":
+		return big.NewInt(32)
+	case "2300":
+		return big.NewInt(2300)
+	case "50000":
+		return big.NewInt(50000)
+	case "p32":
+		return p(32)
+	case "p63m1":
+		return new(big.Int).Sub(p(63), one)
+	case "p63":
+		return p(63)
+	case "p64m1":
+		return new(big.Int).Sub(p(64), one)
+	case "p64":
+		return p(64)
+	case "p255":
+		return p(255)
+	case "p255x":
+		return new(big.Int).Add(p(255), big.NewInt(0x100000))
+	case "max":
+		return new(big.Int).Sub(p(256), one)
+	}
+	vutil.Fatalf("unknown operand class %q", c)
+	return nil
+}
+
+// compileCalls: the call instructions of one TLC sequence, in the outermost frame
+func compileCalls(cs []callDesc) []byte {
+	a := eu.NewAsm()
+	for _, c := range cs {
+		a.PushInt(0).PushInt(0).PushInt(0).PushInt(0)
+		var op byte
+		switch c.Op {
+		case "call":
+			op = eu.CALL
+		case "callcode":
+			op = eu.CALLCODE
+		case "delegatecall":
+			op = eu.DELEGATECALL
+		case "staticcall":
+			op = eu.STATICCALL
+		default:
+			vutil.Fatalf("unknown call kind %q", c.Op)
+		}
+		if op == eu.CALL || op == eu.CALLCODE {
+			a.PushInt(uint64(c.Value))
+		}
+		switch c.Target {
+		case "empty":
+			a.PushInt(0x1009)
+		case "returner":
+			a.PushInt(0x1003)
+		case "reverter":
+			a.PushInt(0x1002)
+		default:
+			vutil.Fatalf("unknown target %q", c.Target)
+		}
+		if c.Gas == "all" {
+			a.Op(eu.GAS)
+		} else {
+			a.Push(classValue(c.Gas).Bytes())
+		}
+		a.Op(op, eu.POP)
+	}
+	return a.Bytes()
+}
+
+// compileMem: one instruction with a memory operand of the given classes
+func compileMem(m memCase) []byte {
+	a := eu.NewAsm()
+	x, y, z := classValue(m.A).Bytes(), classValue(m.B).Bytes(), classValue(m.C).Bytes()
+	switch m.Op {
+	case "mcopy":
+		a.Push(z).Push(y).Push(x).Op(eu.MCOPY)
+	case "calldatacopy":
+		a.Push(z).Push(y).Push(x).Op(eu.CALLDATACOPY)
+	case "codecopy":
+		a.Push(z).Push(y).Push(x).Op(eu.CODECOPY)
+	case "returndatacopy":
+		a.Push(z).Push(y).Push(x).Op(eu.RETURNDATACOPY)
+	case "mstore":
+		a.PushInt(1).Push(x).Op(eu.MSTORE)
+	case "mstore8":
+		a.PushInt(1).Push(x).Op(eu.MSTORE8)
+	case "mload":
+		a.Push(x).Op(eu.MLOAD, eu.POP)
+	case "sha3":
+		a.Push(z).Push(x).Op(eu.SHA3, eu.POP)
+	case "log0":
+		a.Push(z).Push(x).Op(byte(eu.LOG0))
+	case "return":
+		a.Push(z).Push(x).Op(eu.RETURN)
+	case "revert":
+		a.Push(z).Push(x).Op(eu.REVERT)
+	case "create":
+		a.Push(z).Push(x).PushInt(0).Op(eu.CREATE, eu.POP)
+	case "extcodecopy":
+		a.Push(z).PushInt(0).Push(x).PushInt(0x1003).Op(eu.EXTCODECOPY)
+	case "callargs":
+		a.Push(z).Push(x).Push(z).Push(x).PushInt(0).PushInt(0x1003).PushInt(1000).Op(eu.CALL, eu.POP)
+	default:
+		vutil.Fatalf("unknown memory case %q", m.Op)
+	}
+	a.Op(eu.MSIZE, eu.POP)
+	return a.Bytes()
+}
+
+func runScript(path string) {
+	raw, err := os.ReadFile(path)
+	if err != nil {
+		vutil.Fatalf("read script: %v", err)
+	}
+	var sc script
+	if err := json.Unmarshal(raw, &sc); err != nil {
+		vutil.Fatalf("parse script: %v", err)
+	}
+	for _, cs := range sc.Calls {
+		execute(job{kind: "tlc-calls", code: compileCalls(cs), gas: 200000})
+	}
+	for _, m := range sc.Mem {
+		execute(job{kind: "tlc-mem", code: compileMem(m), data: []byte{1, 2, 3, 4, 5}, gas: 1000000})
+	}
+}
+
 func main() {
 	out := flag.String("out", "trace.ndjson", "ndjson trace")
+	scriptPath := flag.String("script", "", "TLC-generated call sequences and memory operand cases (json)")
 	scratch := flag.String("scratch", "", "scratch directory for the node's stores")
 	n := flag.Int("runs", 100, "generated runs")
 	salt := flag.Int64("salt", 0, "seed salt")
@@ -452,6 +608,9 @@ func main() {
 	rec = eu.NewRecorder(tr, eu.Options{Gas: true, Frames: true, MaxSteps: *maxSteps, MaxFrames: 2200, MaxFaults: 1200})
 	rec.Install()
 	r := vutil.Rng(*salt)
+	if *scriptPath != "" {
+		runScript(*scriptPath)
+	}
 	for i := 0; i < *n; i++ {
 		execute(generate(r, i))
 	}
